@@ -696,3 +696,33 @@ def expand_upvars(program, body, term, depth=4):
         return None
 
     return rebuild(term, f)
+
+
+def fold_int(t):
+    """Constant-fold an integer term (None if not a compile-time constant expression)."""
+    t = strip(t)
+    if t[0] == "const":
+        v = t[1]
+        if isinstance(v, bool):
+            return None
+        if isinstance(v, int):
+            return v
+        if isinstance(v, (bytes, bytearray)) and 1 <= len(v) <= 8:
+            return int.from_bytes(v, "little")
+        return None
+    if t[0] == "field" and t[2] in (0, "0") and t[1][0] == "binop" and t[1][1].endswith("WithOverflow"):
+        return fold_int(("binop", t[1][1][:-len("WithOverflow")], t[1][2], t[1][3]))
+    if t[0] == "binop":
+        a, b = fold_int(t[2]), fold_int(t[3])
+        if a is None or b is None:
+            return None
+        op = t[1].replace("WithOverflow", "").replace("Unchecked", "")
+        try:
+            return {"BitOr": a | b, "BitAnd": a & b, "BitXor": a ^ b, "Add": a + b, "Sub": a - b, "Mul": a * b,
+                    "Shl": a << b if 0 <= b < 128 else None, "Shr": a >> b if 0 <= b < 128 else None,
+                    "Div": a // b if b else None, "Rem": a % b if b else None}.get(op)
+        except Exception:
+            return None
+    if t[0] == "cast":
+        return fold_int(t[2])
+    return None
